@@ -16,6 +16,14 @@ From Artap Require Export Base.Ord Model.Samplers.
 Import ListNotations.
 Local Open Scope Q_scope.
 
+(* compact literal of a binary64 value (or any dyadic rational): fq m e = m * 2^e *)
+Definition fq (m e : Z) : Q :=
+  match e with
+  | Z0 => inject_Z m
+  | Zpos _ => inject_Z (Z.shiftl m e)
+  | Zneg p => Qmake m (Pos.shiftl 1 (Npos p))
+  end.
+
 Inductive c12_event :=
 | ERand (m : list (list Q))
 | EPerm (p : list nat).
